@@ -73,6 +73,18 @@ claimed = {
   text="Decides structural lines of the container statement on header.Write/Read: (countemit) the record array, NumTables and first offset derive from the length of the filtered name list actually written; (order) clearChecksum precedes every checksum computation, the directory is sorted by tag before it is serialised, patchChecksum follows all checksums and precedes the first write; (align) offsets advance by lengths rounded to 4 and padding uses modulus 4; (patchguard) the in-place patch touches head[8:12] only and is guarded by len(head) >= 12; (wiresize) offsets = 12 and rawRecord = 16 bytes; (readback) every directory record header.Read validates is stored — no path through the directory loop skips the store; plus mapdet/sortfirst/bigendian on the same functions. Level 'other'.",
   note="Trusted: go/types, go/ssa. Not covered: arithmetic of the checksum and of searchRange/entrySelector/rangeShift, agreement with an independent parser — value-level.",
   ref="DESIGN.md §4 C03"),
+ "C17": dict(
+  technique="static who-may-write, must-pass-through (atomic state update), dominance and error-flow rules on go/ssa for parser.Parser",
+  engine="parserrules",
+  text="Decides structural clauses of 'the buffered reader behaves like a plain random-access byte view' for every history at once: (whomaywrite) only New, SeekPos and ReadBytes assign the window state (buf, from, pos, used) and only SeekPos/ReadBytes/Size touch the underlying reader; (viareadbytes) every fixed-size and bulk read obtains its bytes through ReadBytes; (seekfirst) every store that abandons the window is dominated by the Seek of the underlying reader; (atomicrefill) once the window has been compacted, from, pos and used are all updated on every path to every return; (sizeguard) requests larger than the buffer are rejected before any state changes; (errnodata) a possibly non-nil error is never accompanied by data; (eofmap) an error becomes nil only under err == io.EOF && l > 0; (posformula) Pos is from + pos; (narrowarith) no count is multiplied in uint8/uint16 before it is used as a size; bigendian on ReadUint16/32; errdrop on all methods. Level 'other'.",
+  note="Trusted: go/types, go/ssa. Not covered: the cache-window invariant itself (that buf[pos:used] mirrors input[from+pos:from+used] after every call sequence) — an inductive argument over runtime values that these necessary conditions do not replace.",
+  ref="DESIGN.md §4 C17"),
+ "C19": dict(
+  technique="static table agreement between parser and printer (literal evaluation), goroutine/channel discipline, typestate and loop-shape rules on syntax and go/ssa",
+  engine="dslagree",
+  text="Decides structural clauses of 'faithful, total notation': (flagnames) the flag names the printer writes are exactly those the parser accepts for the same constants; (headers) each header GSUBn/GPOSn the parser dispatches on leads to a reader building lookup type n and the printer derives headers from the lookup type with the same prefixes; (exhaustive) all 17 subtable types the parser can build have a case in the printer's type switches; (goroutine) every goroutine closes the channel it feeds on its single exit, no range over such a channel can be left early (return/break/goto/never-returning call), and Parse's deferred recovery drains the token channel the parser reads, converts only *parseError and re-panics the rest — so no schedule leaves a goroutine blocked; (lineinfo) every lexer item carries its line; (unsignedcountdown) no unsigned down-counting loop with a >= test; (dupassign) no repeated reset statement in a reset block; (stablesort) the printer's sort by a key projection is stable. Level 'other'.",
+  note="Trusted: go/types, go/ssa, 1 reviewed entry (right-to-left flag has no syntax; outside the quantifier). Not covered: equality Parse(Explain(L)) == L of contents, meaning of the documented syntax — value-level.",
+  ref="DESIGN.md §3 E11, §4 C19"),
 }
 
 pending_reason = "not claimed yet: the engines this property needs are still being built (DESIGN.md §9 build order); no check is registered until it runs exact on the unchanged tree"
@@ -110,6 +122,8 @@ engines = [
  {"name": "sizeagree", "path": "sfntlint/sizeagree.go, sfntlint/twins.go, sfntlint/c08.go, sfntlint/c11.go", "serves_properties": ["C08", "C11", "C01"], "kind_free_text": "symbolic size algebra for paired length/encode functions, twin formulas, dead overflow guards, loca writer/reader agreement (E8)"},
  {"name": "codecpair", "path": "sfntlint/codecpair.go, sfntlint/fieldpair.go, sfntlint/bitpair.go, sfntlint/c12.go", "serves_properties": ["C12", "C03"], "kind_free_text": "big-endian rule, field/flag pairing between decoder and encoder, field coverage, wire sizes (E9)"},
  {"name": "containerrules", "path": "sfntlint/c03.go", "serves_properties": ["C03"], "kind_free_text": "count/emit, ordering, alignment, patch guard, read-back rules for the sfnt container"},
+ {"name": "parserrules", "path": "sfntlint/c17.go, sfntlint/narrow.go", "serves_properties": ["C17"], "kind_free_text": "who-may-write, atomic refill, seek-first, error/no-data rules for parser.Parser"},
+ {"name": "dslagree", "path": "sfntlint/c19.go", "serves_properties": ["C19"], "kind_free_text": "parser/printer table agreement, goroutine and channel discipline, loop-shape rules (E11)"},
  {"name": "mapdet", "path": "sfntlint/mapdet.go, sfntlint/props_det.go", "serves_properties": ["C01", "C07", "C08", "C09", "C13", "C15", "C20"], "kind_free_text": "order-sensitivity analysis of map iteration, clock and scheduling sources (E5)"},
 ]
 for e in engines:
